@@ -88,6 +88,37 @@ def c03_expected(ts, kind, arg):
     raise ValueError(kind)
 
 
+def _bracket_child(tzname, q):
+    import os, time
+    os.environ["TZ"] = tzname
+    time.tzset()
+    from datetime import datetime as _dt
+    from realparse import eval_case
+    out = []
+    for text in ("now", "today", "jetzt"):
+        t0 = _dt.now(); rec = eval_case((text, None, {})); t1 = _dt.now()
+        if text == "today":
+            lo, hi = T(t0.year, t0.month, t0.day), T(t1.year, t1.month, t1.day)
+        else:
+            lo, hi = T(t0.year, t0.month, t0.day, t0.hour, t0.minute), T(t1.year, t1.month, t1.day, t1.hour, t1.minute)
+        out.append((text, lo, hi, rec))
+    q.put(out)
+
+
+def _bracket_in_zone(tzname):
+    """ask without a reference time in a child process whose local zone is `tzname`; records + the bracketing wall-clock readings"""
+    import multiprocessing as mp
+    ctx = mp.get_context("fork")
+    q = ctx.Queue()
+    p = ctx.Process(target=_bracket_child, args=(tzname, q))
+    p.start()
+    try:
+        out = q.get(timeout=120)
+    finally:
+        p.join(30)
+    return out
+
+
 def sweep_c03(rng, tier):
     forms = c03_forms()
     cases, exp, fam = [], [], []
@@ -113,18 +144,41 @@ def sweep_c03(rng, tier):
     _init()
     Cm = _sys.modules["ctparse.ctparse"]
     real_dt = Cm.datetime
-    for now in [(2020, 2, 29, 23, 59, 59), (2019, 12, 31, 0, 0, 1), (2018, 3, 7, 12, 43, 0)]:
+    # the frozen clock is faithful to the `tz` argument: the fake local zone is `off` hours ahead of UTC, so `now(tz)` is an
+    # aware instant and only the naive `now()` is the local wall clock the property speaks of
+    from datetime import timezone as _tz
+    for now, off in [((2020, 2, 29, 23, 59, 59), 13), ((2019, 12, 31, 0, 0, 1), -11), ((2018, 3, 7, 12, 43, 0), 0), ((2021, 1, 1, 1, 30, 0), 13)]:
         class _Frozen(real_dt):
             @classmethod
             def now(cls, tz=None):
+                local = real_dt(*now)
+                if tz is None:
+                    return local
+                return (local - timedelta(hours=off)).replace(tzinfo=_tz.utc).astimezone(tz)
+
+            @classmethod
+            def utcnow(cls):
+                return real_dt(*now) - timedelta(hours=off)
+
+            @classmethod
+            def today(cls):
                 return real_dt(*now)
         Cm.datetime = _Frozen
         try:
             for (family, text, kind, arg) in [f for f in forms if f[1] in ("today", "tomorrow", "now", "eom", "gestern", "next friday", "übermorgen")]:
                 c = (text, None, {}); r = eval_case(c)
-                cases.append((text, now, {"ts": None, "frozen_now": list(now)})); exp.append(c03_expected(now, kind, arg)); fam.append("ts omitted"); recs.append(r)
+                cases.append((text, now, {"ts": None, "frozen_now": list(now), "utc_offset_h": off})); exp.append(c03_expected(now, kind, arg)); fam.append("ts omitted"); recs.append(r)
         finally:
             Cm.datetime = real_dt
+    # the same with the real clock under real non-UTC process time zones (child process; TZ + tzset): 'now' lies between two
+    # readings of the local wall clock, 'today' is the local date
+    for tzname in ("UTC-13", "UTC+11", "UTC"):
+        br = _bracket_in_zone(tzname)
+        for (text, lo, hi, rec) in br:
+            tup = lambda x: tuple(-1 if v == "N" else int(v) for v in x.split(":")[1:6])
+            ok = rec.get("err") is None and rec.get("res") is not None and rec["res"].startswith("T:") and tup(lo) <= tup(rec["res"]) <= tup(hi)
+            cases.append((text, None, {"ts": None, "TZ": tzname, "bracket": [lo, hi]})); fam.append("ts omitted, TZ=" + tzname); recs.append(rec)
+            exp.append(rec["res"] if ok else lo)
     return finish("C03", cases, exp, recs, "pattern-language forms of the relative-day rules x reference times (month/year ends, leap days, 3 times of day); "
                   "non-trivial = distinct (form, reference time) that resolved", families=fam)
 
@@ -198,6 +252,12 @@ def sweep_c05(rng, tier):
     months = G.month_words()
     refs = [(2018, 3, 7, 12, 43, 0), (1999, 12, 31, 23, 59, 59), (2030, 6, 1, 0, 0, 0), (2020, 2, 29, 8, 0, 0), (1975, 1, 1, 1, 1, 1), (2095, 5, 5, 5, 5, 5),
             (2015, 7, 25, 10, 0, 0), (2024, 5, 15, 9, 30, 0), (2009, 12, 31, 0, 0, 0)]
+    # 'independent of the reference time': leap days of several centuries (century start leap / not leap), century and year
+    # boundaries, and reference times drawn at random from 1970-2130 on every run
+    refs += [(1996, 2, 29, 12, 0, 0), (1992, 2, 29, 0, 0, 1), (2000, 2, 29, 23, 59, 59), (2104, 2, 29, 9, 0, 0), (2096, 2, 29, 9, 0, 0), (2099, 12, 31, 23, 59, 59), (2100, 1, 1, 0, 0, 0), (2000, 1, 1, 0, 0, 0)]
+    for _ in range(12 if tier == "thorough" else 5):
+        yy = rng.randint(1970, 2130); mm = rng.randint(1, 12)
+        refs.append((yy, mm, rng.randint(1, calendar.monthrange(yy, mm)[1]), rng.randint(0, 23), rng.randint(0, 59), rng.randint(0, 59)))
     n = 2500 if tier == "thorough" else 260
     dates = []
     for _ in range(n):
@@ -205,7 +265,7 @@ def sweep_c05(rng, tier):
     dates += [(2020, 2, 29), (2000, 2, 29), (1999, 12, 31), (2029, 12, 31), (1990, 1, 1), (2024, 2, 29), (2021, 2, 24), (2024, 2, 29), (2029, 12, 8)]
     for (y, m, d) in dates:
         e = T(y, m, d)
-        for ts in rng.sample(refs, 3):
+        for ts in rng.sample(refs, 4):
             for name, t in {"dd.mm.yyyy": "%02d.%02d.%d" % (d, m, y), "d.m.yyyy": "%d.%d.%d" % (d, m, y), "dd/mm/yyyy": "%02d/%02d/%d" % (d, m, y), "dd-mm-yyyy": "%02d-%02d-%d" % (d, m, y)}.items():
                 cases.append((t, ts, {})); exp.append(e); fam.append(name)
             if y >= 2000:
@@ -408,8 +468,12 @@ def sweep_c08(rng, tier):
             if w in ("m", "h"):
                 ns = list(range(24, 121, 7))      # N h / N m with N < 24 are clock notations (C06)
             else:
-                ns = range(0, 121) if tier == "thorough" else sorted(set([0, 1, 2, 9, 10, 11, 24, 31, 60, 99, 100, 120] + rng.sample(range(121), 6)))
+                ns = list(range(0, 121)) if tier == "thorough" else sorted(set([0, 1, 2, 9, 10, 11, 24, 31, 60, 99, 100, 120] + rng.sample(range(121), 6)))
+                # amounts of every length: the whole digit run is the amount
+                ns = list(ns) + [999, 1000, 1440, 9999, 10000, 10080, 43200, 99999, 525600, 1234567] + [rng.randrange(10 ** k, 10 ** (k + 1)) for k in (3, 4, 5, 6)]
             for n in ns:
+                if 1000 <= n <= 2359 and n % 100 < 60 and w in ("night", "nacht"):
+                    continue      # '<hhmm> night' is a clock time with a part of day (C06 notation), not an amount of nights
                 for form in ("%d %s", "%d%s"):
                     if form == "%d%s" and w in ("m", "h") : continue
                     cases.append((form % (n, w), ts0, {})); exp.append("D:%d:%s" % (n, u)); fam.append("digits")
@@ -422,7 +486,8 @@ def sweep_c08(rng, tier):
     # X for N units
     starts = [date(2020, 1, 31), date(2019, 1, 31), date(2020, 2, 29), date(2019, 12, 31), date(2020, 3, 7), date(2020, 11, 30), date(2021, 8, 31), date(2024, 2, 28)]
     for d in starts:
-        for n in ([0, 1, 2, 7, 12, 13, 24, 30, 31, 59, 100, 365, 500] if tier == "thorough" else [1, 2, 13, 31, 100]):
+        for n in ([0, 1, 2, 7, 12, 13, 24, 30, 31, 59, 100, 365, 500, 1461, 10000, 10080] if tier == "thorough" else [1, 2, 13, 31, 100, 1461, 10080]):
+            if n > 2000 and d != starts[0] and d != starts[3]: continue
             ds = "%02d.%02d.%d" % (d.day, d.month, d.year)
             for uw, f in [("days", lambda x, n: x + timedelta(n)), ("nights", lambda x, n: x + timedelta(n)), ("weeks", lambda x, n: x + timedelta(7 * n)), ("months", add_months)]:
                 e = f(d, n)
